@@ -97,8 +97,11 @@ def _ccw_hull_order(pts, nn):
     u, v, _ = plane_frame(nn)
     c = pts.mean(axis=0)
     xy = np.stack([(pts - c) @ u, (pts - c) @ v], axis=1)
-    order = sorted(range(len(xy)), key=lambda i: (xy[i, 0], xy[i, 1]))
     scale = np.max(np.abs(xy)) or 1.0
+    # quantise before sorting so that points on a common vertical line tie exactly
+    # (otherwise rounding noise picks a non-extreme point as the chain's end point)
+    key = np.round(xy / (1e-9 * scale))
+    order = sorted(range(len(xy)), key=lambda i: (key[i, 0], key[i, 1]))
 
     def cross(o, a, b):
         return (xy[a, 0] - xy[o, 0]) * (xy[b, 1] - xy[o, 1]) - (xy[a, 1] - xy[o, 1]) * (xy[b, 0] - xy[o, 0])
@@ -468,6 +471,10 @@ def self_test():
     assert abs(pm["Jc"] - (2 / 12 * (4 + 1))) < 1e-12 and pm["signed_area"] > 0
     assert is_simple_polygon_2d([(0, 0), (2, 0), (2, 1), (0, 1)])
     assert not is_simple_polygon_2d([(0, 0), (2, 1), (2, 0), (0, 1)])
+    _f, _n, _isv = convex_facets_int([(-1, -1, 1), (0, -1, -1), (0, 0, 0), (0, 0, 1), (1, 0, -1), (1, 1, 1)])
+    assert _isv == [True, True, True, False, True, True], _isv
+    _f, _n, _isv = convex_facets_int([(-1, 1, 0), (0, 0, 0), (0, 0, 1), (0, 1, 0), (1, -1, 0), (1, 0, 0)])
+    assert _isv == [True, False, True, True, True, True], _isv
     fi, ni, vi = convex_facets_int([[int(x) for x in v] for v in cube])
     assert sorted(map(sorted, fi)) == sorted(map(sorted, f))
 
